@@ -13,7 +13,10 @@ def main():
     for cfg in spec["cfgs"]:
         for api in spec["apis"]:
             r = history._child(lambda a: history.run_history([["call", a[0], a[1]]], L)[0], (api, cfg))
-            out[f"{api}|{cfg}"] = r
+            out[f"{api}|{cfg}|0"] = r
+            # the caller's objects in their edited version, edited BEFORE anything was called
+            r = history._child(lambda a: history.run_history([["editarg", 0, ""], ["call", a[0], a[1]]], L)[1], (api, cfg))
+            out[f"{api}|{cfg}|1"] = r
     json.dump(out, sys.stdout)
 
 
